@@ -92,9 +92,6 @@ struct SIMDVector<int32_t,simd_abi::avx512> {
             if (maska[i] == -1) {
                 a[Size - i - 1] = ((const scalar_value_type*)&value)[Size - i - 1];
             }
-            else {
-                a[Size - i - 1] = 0;
-            }
         }
         unused(Aligned);
 #endif
@@ -447,9 +444,6 @@ struct SIMDVector<int32_t,simd_abi::avx> {
             if (maska[i] == -1) {
                 a[Size - i - 1] = ((const scalar_value_type*)&value)[Size - i - 1];
             }
-            else {
-                a[Size - i - 1] = 0;
-            }
         }
         unused(Aligned);
 #endif
@@ -773,9 +767,6 @@ struct SIMDVector<int32_t,simd_abi::sse> {
         for (FASTOR_INDEX i=0; i<Size; ++i) {
             if (maska[i] == -1) {
                 a[Size - i - 1] = ((const scalar_value_type*)&value)[Size - i - 1];
-            }
-            else {
-                a[Size - i - 1] = 0;
             }
         }
         unused(Aligned);
